@@ -3,9 +3,10 @@ import glob, json, os
 import vlib
 
 TARGETS = ["Base/Corr.vo", "C18/Model.vo", "C18/Corr.vo", "C18/TableModel.vo", "C18/TableCorr.vo", "C18/ConfigModel.vo", "C18/ConfigCorr.vo", "C18/ProofsTable.vo", "C18/ProofsConfig.vo", "C18/Spec.vo", "C18/SpecTest.vo", "C18/ProofsBase.vo",
-           "C18/ProofsScalar.vo", "C18/ProofsSparse.vo", "C18/ProofsDense.vo", "C18/ProofsSparseMat.vo", "C18/ProofsInst.vo", "C18/ProofsTable2.vo", "C18/ProofsConfig2.vo", "C18/Props.vo"]
-PROPS = ["C18/Props.v"]
-STEMS = ["cases", "tcases", "ccases"]
+           "C18/ProofsScalar.vo", "C18/ProofsSparse.vo", "C18/ProofsDense.vo", "C18/ProofsSparseMat.vo", "C18/ProofsInst.vo", "C18/ProofsTable2.vo", "C18/ProofsConfig2.vo", "C18/Props.vo",
+           "C18/RecvModel.vo", "C18/RecvCorr.vo", "C18/ProofsRecv.vo", "C18/PropsRecv.vo"]
+PROPS = ["C18/Props.v", "C18/PropsRecv.v"]
+STEMS = ["cases", "tcases", "ccases", "rcases"]
 CORPUS = os.path.join(vlib.ROOT, "corpus/C18/corpus.jsonl")
 # findings retired by fix: commits must be removed from BOTH /verif/known_findings.json and this file (b3C18 did so for the six JSON ones)
 PROPOSED = os.path.join(vlib.ROOT, "corpus/C18/known_findings_proposed.json")
@@ -23,7 +24,12 @@ PARTIAL = ("Theorems are about the hand-written models coq/C18/Model.v (JSON wri
            "proved by induction over the tree for every nesting of mixture / log transform / translation / top-level iid over the 15 "
            "plain families + categorical (binomial excluded: F-CONFIG-BINOMIAL); log/exp/normalisation are abstract (hypotheses "
            "flog(fexp x)=x, norm lw = lw), so the tie compares categorical/binomial/mixture parameters by count in Coq and with a "
-           "tolerance in the oracle; vector/matrix registries other than 'vector:scalar iid' (HMMs, normal, ...) are not modelled.")
+           "tolerance in the oracle; vector/matrix registries other than 'vector:scalar iid' (HMMs, normal, ...) are not modelled. "
+           "Receivers (round 5, RecvModel.v): every decoder is a function (old receiver state, document/file) -> new state; its result "
+           "equals the fresh-receiver reader for EVERY old state for dense/sparse vectors and matrices (JSON and tables), so all theorems "
+           "above hold for recycled receivers; for Real scalars only when the document carries a gradient or Hessian "
+           "(real_decode_receiver_independent_partial; F-JSON-REAL-RECV refuted). The state of a receiver after a decoder returned an "
+           "error is not modelled (Real: Value is already assigned; dense vector Import: already reset).")
 
 def findings():
     fs = list(vlib.known_findings("C18"))
@@ -60,6 +66,7 @@ def classify(fail, fs=None):
 
 
 def corr(ctx, binary, n):
+    os.environ["C18_REPO"] = vlib.REPO     # the harness reads the struct declarations of the library with go/ast
     rc, out = vlib.run_harness(ctx, binary, n, extra=CORPUS)
     if rc != 0:
         ctx.violation({"obligation": "C18 harness run", "log": out[-3000:]}, False,
@@ -90,7 +97,7 @@ def corr(ctx, binary, n):
             for i in r["mism"]:
                 bad.append(cases[k * meta["per_shard"] + i])
     orc = vlib.load_jsonl(os.path.join(ctx.dir, "oracle.jsonl"))
-    ctx.log("correspondence: %d cases in %d shards (JSON, tables, configurations), %d mismatching; oracle reported %d failures" % (
+    ctx.log("correspondence: %d cases in %d shards (JSON, tables, configurations, recycled receivers), %d mismatching; oracle reported %d failures" % (
         ncases, nshards, len(bad), len(orc)))
     return bad, orc
 
@@ -120,12 +127,14 @@ def run(ctx):
         "amd64 float->int conversion semantics (CVTTSD2SQ/CVTTSD2SL) in cvt_int",
         "math.Log/Exp and LogAdd behind categorical/binomial/mixture parameters (abstract in the model; compared by count in Coq, by tolerance in the oracle)",
         "read-only reflection on the private fields of the containers to observe headers and stored entries",
+        "the struct declarations of the containers are read from the library's sources with go/ast (and cross-checked with reflection on the compiled types); a field the model does not list fails the RvFields obligation",
         "axioms: see 'print_assumptions' (expected: closed under the global context)"]
     ctx.cov["partial"] = PARTIAL
     ok, failures = vlib.proof_stage(ctx, TARGETS, PROPS)
     thms = vlib.theorem_names(os.path.join(vlib.COQ, "C18/Props.v"))
+    rthms = vlib.theorem_names(os.path.join(vlib.COQ, "C18/PropsRecv.v"))
     if ok:
-        ctx.cov["print_assumptions"] = vlib.print_assumptions("C18", [("C18.Props", thms)], ctx.dir)
+        ctx.cov["print_assumptions"] = vlib.print_assumptions("C18", [("C18.Props", thms), ("C18.PropsRecv", rthms)], ctx.dir)
     binary, blog = vlib.build_harness("c18")
     if binary is None:
         ctx.violation({"obligation": "build of harness/c18 against the library", "log": blog[-3000:]}, False,
